@@ -350,7 +350,7 @@ func rule054(r *core.Run, ctx *oblig.Ctx) {
 						}
 						s := r.P.SliceOf(iff.Cond, core.SliceOpts{Depth: -1})
 						cd := core.CondOf(iff.Cond)
-						if s.Has("call:"+skipLen) {
+						if s.Has("call:" + skipLen) {
 							// the archive-emptiness test: Len() > 0 (or != 0, >= 1)
 							k, isK := core.ConstInt(cd.Y)
 							nonEmptyOnTrue := isK && ((cd.Op == token.GTR && k == 0) || (cd.Op == token.NEQ && k == 0) || (cd.Op == token.GEQ && k == 1))
